@@ -82,13 +82,13 @@ pub fn outside_envelope(name: &str, st: &PushState) -> Option<String> {
         "EXEC.CMD" => {
             let harmless = match int_at(0) {
                 Some(n) if n >= 0 && (n as usize) < st.name_stack.size() => {
-                    st.name_stack.get(n as usize).map(|s| s == "true" || (std::env::var("PV_CMD_NOTFOUND").is_ok() && cannot_start(s))).unwrap_or(false)
+                    st.name_stack.get(n as usize).map(|s| s == "true" || s == "printf" || s == "echo" || (std::env::var("PV_CMD_NOTFOUND").is_ok() && cannot_start(s))).unwrap_or(false)
                 }
                 Some(_) => true, // not enough names or negative count: nothing is spawned
                 None => true,
             };
             if !harmless {
-                return Some("EXEC.CMD: target is not the harmless `true`".to_string());
+                return Some("EXEC.CMD: target is not one of the harmless `true`, `printf`, `echo`".to_string());
             }
         }
         _ => {}
@@ -182,7 +182,9 @@ pub fn new_iset(probe: &ProbeLog) -> InstructionSet {
     );
     // ... without a dot, starting with a lower-case letter, starting with a digit
     // ... and names that would read as an integer / float literal (an instruction name wins)
-    for name in ["VERIFSQUARE", "verif.lower", "2VERIF", "424242", "4.25"].iter() {
+    // ... names that start like a typed vector literal (the literal reading wins), and names that differ from a
+    // built-in instruction in the case of their letters only (different names)
+    for name in ["VERIFSQUARE", "verif.lower", "2VERIF", "424242", "4.25", "BOOL[1,0]", "INT[7", "integer.max", "Float.<", "name.cat"].iter() {
         iset.add(name.to_string(), Instruction::new(|_st: &mut PushState, _c: &InstructionCache| {}));
     }
     let p2 = probe.clone();
